@@ -271,6 +271,34 @@ class Worker:
         m.load_from_config(cfg, search_paths=[self.scratch])
         return self._mbi_obs(m, spec, sup)
 
+    def b_mbi_cli(self, spec, sup):
+        """`nxpimage mbi export -c cfg.yaml` through click's CliRunner; the IV is read back from the written image"""
+        import yaml
+        from click.testing import CliRunner
+        from spsdk.apps import nxpimage
+        from spsdk.image.mbi.mbi import MasterBootImage
+        cfg = self._mbi_cfg(spec, sup)
+        for k in ("rootCertificate0File", "mainRootCertId"):
+            cfg.pop(k)
+        cfg["certBlock"] = "cert_block.yaml"
+        self.seq += 1
+        cfg["masterBootOutputFile"] = f"cli_{self.seq}.bin"
+        with open(os.path.join(self.scratch, "cert_block.yaml"), "w") as fh:
+            fh.write(yaml.safe_dump({"rootCertificate0File": "c.der", "mainRootCertId": 0, "imageBuildNumber": 0}))
+        path = os.path.join(self.scratch, f"cli_{self.seq}.yaml")
+        with open(path, "w") as fh:
+            fh.write(yaml.safe_dump(cfg))
+        r = CliRunner().invoke(nxpimage.main, ["mbi", "export", "-c", path])
+        out = os.path.join(self.scratch, cfg["masterBootOutputFile"])
+        if r.exit_code != 0 or not os.path.exists(out):
+            raise RuntimeError(f"nxpimage mbi export failed: exit {r.exit_code} {type(r.exception).__name__ if r.exception else ''}")
+        with open(out, "rb") as fh:
+            data = fh.read()
+        os.remove(out)
+        os.remove(path)
+        p = MasterBootImage.parse(spec["family"], data, dek=spec["key"])
+        return [self._o("ctr_init_vector", p.ctr_init_vector, sup)]
+
     # ---- a builder object that already produced artifact A is used again for artifact B
     def b_mbi_reload(self, spec, sup):
         """`obj.load_from_config(cfgB)` on the object of an earlier build (optionally exported in between)."""
@@ -642,8 +670,8 @@ def gen_build(rng, keys):
     """One independent construction.  `keys` = a few user keys reused across builds (same KEK / HMAC key for several
     images is the normal situation and makes values *derived from user input* collide)."""
     t = rng.choices(["sb20", "sb21", "sb21_cfg", "advparams", "mbi", "mbi_cfg", "otfad", "otfad_cfg", "iee", "iee_cfg", "bee_prdb", "bee_kib",
-                     "bee_hdr", "bee_cfg", "hab_nonce", "hab_dek", "bootimg_rt", "filler", "sb1", "fill_rand", "hab_cfg"],
-                    [12, 12, 5, 6, 10, 4, 8, 2, 6, 3, 3, 3, 4, 3, 4, 4, 5, 3, 3, 2, 2 if HAB_DATA else 0])[0]
+                     "bee_hdr", "bee_cfg", "hab_nonce", "hab_dek", "bootimg_rt", "filler", "sb1", "fill_rand", "hab_cfg", "mbi_cli"],
+                    [12, 12, 5, 6, 10, 4, 8, 2, 6, 3, 3, 3, 4, 3, 4, 4, 5, 3, 3, 2, 2 if HAB_DATA else 0, 2])[0]
     spec = {"t": t, "sup": {}}
     sizes = {}
     if t in ("sb20", "sb21"):
@@ -664,6 +692,11 @@ def gen_build(rng, keys):
         spec["key"] = rng.choice(keys)
         spec["iv"] = rng.choice(["absent", "absent", "none", "given"])
         if spec["iv"] == "given":
+            spec["sup"]["ctr_init_vector"] = rhex(rng, 16)
+    elif t == "mbi_cli":
+        spec["family"] = rng.choice(MBI_FAMILIES[:2])
+        spec["key"] = rng.choice(keys)
+        if rng.random() < 0.3:
             spec["sup"]["ctr_init_vector"] = rhex(rng, 16)
     elif t == "mbi_cfg":
         spec["family"] = rng.choice(MBI_FAMILIES[:2])
@@ -912,7 +945,7 @@ def check_reuse_model(ck, s2, drv, slots, hist, res):
             return
         supv = o["sup"]
         u = "_" if supv is None else str(uid.setdefault(supv, len(uid)))
-        if t in ("mbi", "mbi_cfg", "mbi_parse"):
+        if t in ("mbi", "mbi_cfg", "mbi_parse", "mbi_cli"):
             objid[bi] = bi
             steps.append(f"n,{bi}")
         else:
@@ -921,7 +954,7 @@ def check_reuse_model(ck, s2, drv, slots, hist, res):
             objid[bi] = objid[spec["reuse"]]
             reuse = True
         ob = objid[bi]
-        via = {"mbi_cfg": "load", "mbi_reload": "load", "mbi_setiv": "setter", "mbi_parse": "parse"}.get(t)
+        via = {"mbi_cfg": "load", "mbi_cli": "load", "mbi_reload": "load", "mbi_setiv": "setter", "mbi_parse": "parse"}.get(t)
         if t == "mbi":
             via = None if spec["iv"] == "absent" else "setter"
         if via is not None:
@@ -1048,8 +1081,8 @@ def common_setup(ck):
 
 
 HIST_RULE = ("random histories of 2..12 independent constructions drawn from {BootImageV20/V21 with default vs explicit SBV2xAdvancedParams, "
-             "BootImageV21.load_from_config (+export), SBV2xAdvancedParams, encrypted MBI through constructor (IV absent / None / given) and "
-             "load_from_config (+export), OTFAD KeyBlob (+filler) and OtfadNxp.load_from_config, IeeKeyBlob / IeeNxp.load_from_config (XTS/CTR, "
+             "BootImageV21.load_from_config (+export), SBV2xAdvancedParams, encrypted MBI through constructor (IV absent / None / given), "
+             "load_from_config (+export) and the CLI `nxpimage mbi export` (click CliRunner, IV read back from the written image), OTFAD KeyBlob (+filler) and OtfadNxp.load_from_config, IeeKeyBlob / IeeNxp.load_from_config (XTS/CTR, "
              "128/256), BEE PRDB / KIB / region header / BeeNxp.load_from_config, CsfHabSegment DEK / nonce helpers, complete encrypted HAB container through HabContainer.load_configuration + load_from_config + "
              "export (test-data SRK table / certificates), BootImgRT.add_image, "
              "load_hex_string / align_block_fill_random filler, SecureBootV1}; in ~45% of the histories a builder object that already produced an artifact is USED "
